@@ -1,0 +1,33 @@
+//! Verification hooks, only compiled with `--cfg cooklang_verif`.
+//!
+//! Nothing here changes the behaviour of the crate: [`tokens`] exposes the
+//! token stream of an input and [`set_yield`] installs a function that is
+//! called at the scheduling points marked with [`point`].
+use std::sync::atomic::{AtomicPtr, Ordering};
+
+static YIELD: AtomicPtr<()> = AtomicPtr::new(std::ptr::null_mut());
+
+/// Install (or remove) the function called at every scheduling point
+pub fn set_yield(f: Option<fn(&'static str)>) {
+    let p = match f {
+        Some(f) => f as *mut (),
+        None => std::ptr::null_mut(),
+    };
+    YIELD.store(p, Ordering::SeqCst);
+}
+
+/// Scheduling point. With no function installed this is one atomic load.
+#[inline]
+pub(crate) fn point(site: &'static str) {
+    let p = YIELD.load(Ordering::Relaxed);
+    if !p.is_null() {
+        // SAFETY: only `set_yield` stores into `YIELD`, always a valid fn pointer
+        let f: fn(&'static str) = unsafe { std::mem::transmute(p) };
+        f(site)
+    }
+}
+
+/// Token stream `(kind, start, end)` of an input, front matter not split
+pub fn tokens(input: &str) -> Vec<(String, usize, usize)> {
+    crate::parser::verif_tokens(input)
+}
